@@ -156,6 +156,10 @@ impl Prop for C03 {
         }
     }
 
+    fn view(c: &ProgCase) -> serde_json::Value {
+        prog_view(c)
+    }
+
     fn shrink(c: &ProgCase) -> Vec<ProgCase> {
         shrink_prog_case(c)
     }
